@@ -191,6 +191,19 @@ def build_lm(fd, cfg, dims=None, late=None):
             if form == "ndarray" and cfg.get("prm_dtype") is not None:
                 full = full.astype(cfg["prm_dtype"])
             kw[pn] = full if form == "ndarray" else full.tolist()
+            if form == "ndarray" and isinstance(cfg.get("handed"), list):
+                cfg["handed"].append(full)  # the very objects handed over (the caller may go on using its buffers)
+        elif form in ("ndarray-keepdims", "list-keepdims"):
+            # a plain array that numpy broadcasting expands to the model's shape: length-one axes where the parameter does not vary
+            # (a column of cohort values for all labels, a row of label values for all cohorts), leading length-one axes left out or kept
+            full = np.array(cfg["truth"][pn], dtype=float)
+            for ax, l_ in enumerate([cfg["tl"]] + list(cfg["extra"])):
+                if l_ not in pl:
+                    full = np.take(full, [0], axis=ax)
+            if (len(cfg["items"]) + len(pn)) % 2:
+                while full.ndim and full.shape[0] == 1:
+                    full = full[0]
+            kw[pn] = (full if full.ndim else float(full)) if form == "ndarray-keepdims" else full.tolist()
         elif not pl:
             kw[pn] = float(np.asarray(vals))
         else:
